@@ -115,6 +115,18 @@ func c07Check(in modInput) string {
 			return "the merge modified the file list it was given"
 		}
 	}
+	// the same files once more in the same process: the outcome is a function of the files
+	snapshot := proto.Clone(m)
+	m2, errs2, err2, pan2 := mergeSafe(in.moduleFiles(), in.Schema)
+	if pan2 != "" {
+		return "TransformModuleFilesToModel panicked on the second call with the same files: " + pan2
+	}
+	if (err == nil) != (err2 == nil) {
+		return fmt.Sprintf("merging the same files a second time gives a different verdict: first %v, then %v", errs, errs2)
+	}
+	if err == nil && (!proto.Equal(m, m2) || !proto.Equal(snapshot, m)) {
+		return "merging the same files a second time gives a different model (or changed the model returned before)"
+	}
 	if len(in.Conflicts) == 0 {
 		if err != nil {
 			return fmt.Sprintf("conflict-free file set rejected: %v", errs)
